@@ -135,17 +135,21 @@ func main() {
 			c.Close()
 		default:
 			if strings.HasPrefix(*profile, "scenario:") {
-				fn, ok := scenarios[strings.TrimPrefix(*profile, "scenario:")]
+				sc, ok := scenarios[strings.TrimPrefix(*profile, "scenario:")]
 				if !ok {
 					panic("unknown scenario " + *profile)
 				}
 				accs, bal := stdAccounts(12)
-				c, err := NewChain(GenesisSpec{Accounts: accs, Balances: bal, NodeParams: DefaultNodeParams(), ValidatorIdx: []int{0}, ValSelfBond: 1000000, StreamW: streamW}, time.Unix(1700000000, 0))
+				spec := GenesisSpec{Accounts: accs, Balances: bal, NodeParams: DefaultNodeParams(), ValidatorIdx: []int{0}, ValSelfBond: 1000000, StreamW: streamW}
+				if sc.genesis != nil {
+					sc.genesis(&spec)
+				}
+				c, err := NewChain(spec, time.Unix(1700000000, 0))
 				if err != nil {
 					panic(err)
 				}
 				r := NewRecorder(w, c)
-				fn(r, accs[1:])
+				sc.run(r, accs[1:])
 				sum = Summary{Steps: r.Steps, Ops: r.Ops, Outs: r.Outs, Halted: c.Halted, Notes: r.Notes}
 				c.Close()
 				break
